@@ -42,7 +42,7 @@ def run(chk):
     chk.assume('numba joins all threads at the end of a prange loop')
     validation(chk)
     from . import c17
-    chk.import_from(c17.run, 'C17', ('C17-R2', 'C17-R3', 'C17-R4'), 'C07-P9')
+    chk.import_from(c17.run, 'C17', ('C17-R2', 'C17-R3', 'C17-R4', 'C17-R5', 'C17-R7'), 'C07-P9')
     schedule(chk)
     plumbing(chk)
     ownership(chk)
